@@ -1210,22 +1210,22 @@ impl<'a, E: ColumnValueEncoder> GenericColumnWriter<'a, E> {
 
     /// Determine if we should allow truncating min/max values for this column's statistics
     fn can_truncate_value(&self) -> bool {
-        match self.descr.physical_type() {
-            // Don't truncate for Float16 and Decimal because their sort order is different
-            // from that of FIXED_LEN_BYTE_ARRAY sort order.
-            // So truncation of those types could lead to inaccurate min/max statistics
-            Type::FIXED_LEN_BYTE_ARRAY
-                if !matches!(
-                    self.descr.logical_type_ref(),
-                    Some(&LogicalType::Decimal { .. } | &LogicalType::Float16)
-                ) =>
-            {
-                true
-            }
-            Type::BYTE_ARRAY => true,
-            // Truncation only applies for fba/binary physical types
-            _ => false,
+        // Don't truncate for Float16 and Decimal because their sort order is different
+        // from the byte-wise sort order of BYTE_ARRAY / FIXED_LEN_BYTE_ARRAY: a truncated
+        // (and incremented) prefix of a big-endian two's complement number is not a bound
+        // of that number. This holds for every physical type that can carry the annotation.
+        if matches!(
+            self.descr.logical_type_ref(),
+            Some(&LogicalType::Decimal { .. } | &LogicalType::Float16)
+        ) || self.descr.converted_type() == ConvertedType::DECIMAL
+        {
+            return false;
         }
+        // Truncation only applies for fba/binary physical types
+        matches!(
+            self.descr.physical_type(),
+            Type::FIXED_LEN_BYTE_ARRAY | Type::BYTE_ARRAY
+        )
     }
 
     /// Returns `true` if this column's logical type is a UTF-8 string.
@@ -1298,7 +1298,9 @@ impl<'a, E: ColumnValueEncoder> GenericColumnWriter<'a, E> {
     fn truncate_statistics(&self, statistics: Statistics) -> Statistics {
         let backwards_compatible_min_max = self.descr.sort_order().is_signed();
         match statistics {
-            Statistics::ByteArray(stats) if stats._internal_has_min_max_set() => {
+            Statistics::ByteArray(stats)
+                if (stats._internal_has_min_max_set() && self.can_truncate_value()) =>
+            {
                 let (min, did_truncate_min) = self.truncate_min_value(
                     self.props.statistics_truncate_length(),
                     stats.min_bytes_opt().unwrap(),
